@@ -20,7 +20,7 @@ func planC03(c *Ctx) epochPlan {
 	} else {
 		pl.scenarios = buildScenarios(len(cfgRows), allPolicies, seeds, modes, fits, true)
 		pl.maxDev = 1
-		pl.deepScenarios = buildScenarios(quickCfgRows, []string{"A", "R1"}, seeds, modes, fits, false)
+		pl.deepScenarios = deepScenarios(seeds, modes, fits)
 		pl.deepDev = 2
 		pl.shards = 16
 	}
